@@ -11,6 +11,10 @@ def lemmas(tier):
         meta = {"site": c.site, "case": c.id}
         if c.kind == "int" and c.direct:
             out.append(xh.Lemma("b_%s" % c.id, [("x", "int")], ["return R.conv_accepts(%r, x)[0] == False" % c.id], pre=["not (%d <= x <= %d)" % (c.detail["lo"], c.detail["hi"])], meta=dict(meta, edit="integer out of range")))
+            # "a number outside its range": JSON numbers also arrive as floats (2147483648.0, 1e10, -0.5, Infinity)
+            lo, hi = c.detail["lo"], c.detail["hi"]
+            out.append(xh.Lemma("bf_%s" % c.id, [("f", "float")], ["return R.conv_accepts(%r, f)[0] == False" % c.id], pre=["(f > %d) | (f < %d)" % (hi, lo)], meta=dict(meta, edit="float out of range")))
+            out.append(xh.Lemma("bs_%s" % c.id, [("k", "int")], ["return R.conv_accepts(%r, R.special_floats(%r)[k])[0] == False" % (c.id, c.id)], pre=["0 <= k < %d" % len(leafrt.special_floats(c.id))], meta=dict(meta, edit="special float", special=True)))
         elif c.kind == "literal" and not c.prop.get("envelope"):
             # `jsonrpc` is not a string literal of the metamodel (the package types it `str` with default "2.0"); excluded
             out.append(xh.Lemma("d_%s" % c.id, [("s", "str")], ["return R.conv_accepts(%r, s)[0] == False" % c.id], pre=["len(s) <= %d" % sl, "s != %r" % c.detail["ok"]], meta=dict(meta, edit="literal replaced")))
@@ -32,7 +36,7 @@ def check(tier):
     nreq = sum(1 for c in cases for p in c.props.values() if classlemmas.p_required(p))
     # (b)-(d): XH through the real generated structure_<Class>
     ls = lemmas(tier)
-    results, stats = xh.run(ls, PREAMBLE, timeout=240 if tier == "thorough" else 60, label="c11")
+    results, stats = xh.run(ls, PREAMBLE, timeout=240 if tier == "thorough" else 60, label="c11", extra_env={"VERIF_REAL_FLOATS": "1"})
     chk.ev.add_counts(xh.summarize(results))
     chk.ev.coverage["solver_seconds"] += stats["cpu_s"]
     chk.ev.coverage["crosshair"] = {k: stats[k] for k in ("shards", "wall_s", "cpu_s", "timeout_per_condition_s")}
@@ -49,7 +53,9 @@ def check(tier):
             chk.inconc("%s: %s" % (site, r.message[:160]))
         elif r.verdict == "refuted":
             c = fc[l.meta["case"]]
-            v = r.args.get("x", r.args.get("s"))
+            v = r.args.get("x", r.args.get("s", r.args.get("f")))
+            if l.meta.get("special"):
+                v = leafrt.special_floats(c.id)[r.args["k"]]
             if l.meta.get("near"):
                 v = leafrt.near(c.id)[r.args["k"]]
             code = leafrt.field_replay_code(c, v, expect_accept=False)
@@ -63,8 +69,8 @@ def check(tier):
         kinds[l.meta["edit"]] = kinds.get(l.meta["edit"], 0) + 1
     chk.ev.coverage["edits"] = dict(kinds, **{"required property removed (z3 Q-req classes)": len(cases), "required properties": nreq})
     chk.ev.coverage["functions_encoded"] = [{"fn": "structure_<Class> (cattrs-generated) for %d classes (Q-req, z3)" % len(cases)}, {"fn": "structure_<Class> + attrs __init__ + validators / Enum.__call__ / in_ validator for %d fields (CrossHair)" % len(ls)}]
-    chk.ev.coverage["bounds"] = {"integers": "unbounded", "strings": "len <= %d" % (24 if tier == "thorough" else 12), "surrounding value": "minimal valid template of the class (other members concrete)", "presence vectors (edit a)": "all 2^n"}
-    chk.ev.coverage["outside_bounds"] = ["non-integral floats in integer positions", "or-typed properties that contain a closed enumeration or integer alternative (e.g. ServerCapabilities.textDocumentSync): the four edits are read as applying to directly typed properties", "strings longer than the bound"]
+    chk.ev.coverage["bounds"] = {"integers": "unbounded", "floats": "every finite real (z3 Real; superset of the doubles, stub 6) plus nan / inf / -inf as CrossHair forks them, plus %d concrete special values (inf, -inf, nan, +-DBL_MAX, boundary +-0.5/+-1) chosen by symbolic index" % len(leafrt.SPECIAL_FLOATS), "strings": "len <= %d" % (24 if tier == "thorough" else 12), "surrounding value": "minimal valid template of the class (other members concrete)", "presence vectors (edit a)": "all 2^n"}
+    chk.ev.coverage["outside_bounds"] = ["in-range non-integral floats in integer positions (not one of the four edits)", "or-typed properties that contain a closed enumeration or integer alternative (e.g. ServerCapabilities.textDocumentSync): the four edits are read as applying to directly typed properties", "strings longer than the bound"]
     chk.ev.coverage["rule"] = "one XH lemma per eligible (class, property, edit) with the replaced value symbolic; one z3 query per class for removal of any required key; non-trivial = twin reached"
     chk.ev.coverage["explanation"] = (
         "Edit (a): the generated structure function of every class is interpreted over z3 booleans (key presence) and z3 is asked for a presence vector that lacks a required, "
